@@ -180,7 +180,7 @@ func runProtocol(t *rapid.T, c runCfg) (dups, reorders int) {
 		}
 		if r.Err != nil || r.Cancelled {
 			hangSeen.Store(r.Cancelled || hangSeen.Load())
-		t.Fatalf("party %d did not complete under reordering / identical retransmission (cancelled=%v): %v (%s)", id, r.Cancelled, r.Err, what)
+			t.Fatalf("party %d did not complete under reordering / identical retransmission (cancelled=%v): %v (%s)", id, r.Cancelled, r.Err, what)
 		}
 		outs[id] = r.Out
 	}
